@@ -39,11 +39,15 @@ def oracle(p, c, o):
             bad.append((f'c12:cancel-{kind}',
                         f'task.cancel() at {c} was delivered but the task ended with '
                         f'{names.get(o["res"], o["res"])} instead of being cancelled'))
-    if o['dl'] != 0 or o['armed'] or o['armed_after']:
+    # the clean-up the timeout blocks promise still takes place: no timer set by the task stays
+    # on the loop, nothing hits the code the task runs afterwards (its finally-clause)
+    if o['armed'] or o['armed_after']:
         bad.append(('c12:timer-left-armed',
-                    f'after cancellation: {o["dl"]} deadlines on the task, timer armed={o["armed"]}/{o["armed_after"]}'))
+                    f'after the task left all blocks {o["armed"]} timer(s) it set are still '
+                    f'scheduled ({o["armed_after"]} after its follow-on code)'))
     if o['stray']:
-        bad.append(('c12:late-cancel', f'follow-on code was hit by {o["stray"]}'))
+        bad.append(('c12:late-cancel',
+                    f'follow-on code of the task was hit by {o["stray"]} at {o.get("stray_t")}'))
     return bad
 
 
@@ -87,7 +91,7 @@ def evaluate(ctx, progs, res, only_cancel=None):
                 res.disagreement(case, got, want)
         res.count('delivered', o.get('deliv', 0))
         res.count('outcome_' + o['res'])
-        expired_before = any(e[2] == 1 for e in o.get('evs', []))
+        expired_before = any(e.get('x') == 1 for e in o.get('evs', []))
         res.count('delivered_after_inner_expiry', int(bool(o.get('deliv')) and expired_before))
         if o.get('deliv') and (expired_before or T.n_blocks(p) >= 2):
             res.nontrivial((T.ser_plain(p) + _forms(p), c))
